@@ -38,6 +38,10 @@ REAL_CLASSES = ["ImplausibleImpedanceValues", "NominalVoltagesMismatch", "WrongL
                 "WrongSwitchConfiguration", "MissingBusIndices", "DifferentVoltageLevelsConnected",
                 "WrongReferenceSystem", "NumbaComparison", "DeviationFromStdType", "ParallelSwitches", "NoExtGrid",
                 "MultipleVoltageControllingElementsPerBus", "TestContinuousBusIndices"]
+# classes whose result depends on call options are where "options of an earlier call" can leak: drawn more often
+_OPTION_DEPENDENT = ["ImplausibleImpedanceValues", "NominalVoltagesMismatch", "WrongLineCapacitance", "Overload",
+                     "NumbaComparison"]
+REAL_WEIGHTED = [c for c in REAL_CLASSES for _ in range(5 if c in _OPTION_DEPENDENT else 1)]
 DEFECTS = ["overload", "open_switch", "line_off", "tiny_line", "bus_off", "none", "none", "zones", "gen_at_ext_grid_bus",
            "invalid_value", "parallel_switches", "std_type_deviation", "negative_load", "second_slack_gen",
            "overload+zones", "overload+second_slack_gen"]
@@ -107,7 +111,7 @@ def generate(rng, idx, tier):
                        "named": rng.random() < 0.5})
         elif r < 0.25 + p_real:
             # a fresh object of one of pandapower's own diagnostic function classes
-            ol.append({"op": "register", "client": c, "real": rng.randrange(len(REAL_CLASSES)),
+            ol.append({"op": "register", "client": c, "real": rng.randrange(len(REAL_WEIGHTED)),
                        "args": None, "named": rng.random() < 0.5})
         elif r < 0.92 and n_diag < max_diag:
             n_diag += 1
@@ -314,7 +318,7 @@ def execute(ep, ctx):
                 continue
         d, m = clients[c], models[c]
         if k == "register":
-            fn = REAL_CLASSES[op["real"] % len(REAL_CLASSES)] if "real" in op else op["fn"]
+            fn = REAL_WEIGHTED[op["real"] % len(REAL_WEIGHTED)] if "real" in op else op["fn"]
             name = f"fn{fn}_{len(m.registrations)}" if op["named"] else None
             fobj = make_function(fn, Probe)
             d.register_function(fobj, op["args"], name)
